@@ -111,6 +111,8 @@ FIXED = [
      'lc = local_concurrences(s, None, ...); lc.kbest_matches(k=2) twice on the Python (non-compact) matrix: the second call returned the 3rd and 4th best matches', None),
     ('F51', 'C20', 'fix: dba_loop(use_c=True) kept the memory order of a Fortran-ordered initial average',
      'dba_loop(S, c=F-contiguous 2-D array, thr=None, use_c=True) returned a different barycenter than with the same values in C order (the copy made by repair F47 kept order K; found when the exactly F-contiguous container form was added)', None),
+    ('F52', 'C20', 'fix: dba(use_c=True) handed non-contiguous series to the C warping path',
+     'dba([strided views], c, use_c=True) read the memory between the samples: result depended on what lies next to the series (poison 777 vs -555 gave different barycenters)', None),
 ]
 
 OPEN = [
